@@ -6,6 +6,7 @@ fixed by README/GLOSSARY (see DESIGN.md section 3) and recorded next to the
 spelling (`value` of a bound = what the spelling denotes).
 """
 import copy
+import re
 import itertools
 import struct
 import random
@@ -359,6 +360,14 @@ def numeric_prelude():
         out.append(f'pub fn san_{t}(x: {t}) -> {t} {{ x / 2.0 }}')
         out.append(f'pub fn pred_{t}(x: &{t}) -> bool {{ *x != 4.0 }}')
         out.append(f'pub fn check_{t}(x: &{t}) -> Result<(), MyErr> {{ if *x != 4.0 {{ Ok(()) }} else {{ Err(MyErr::Bad) }} }}')
+    out.append('pub mod consts {')
+    for t in INT_TYPES_ALL:
+        out.append(f'    pub const LIM_{t.upper()}: {t} = 9;')
+    for t in FLOAT_TYPES:
+        out.append(f'    pub const FLIM_{t.upper()}: {t} = 9.5;')
+    out.append('}')
+    out.append('macro_rules! lim_m { () => { 6 } }')
+    out.append('macro_rules! flim_m { () => { 6.5 } }')
     return '\n'.join(out) + '\n'
 
 
@@ -1135,6 +1144,36 @@ def build(tier='quick', seed=0):
         decl('float', 'f32', validators=[V('less_or_equal', 'f32::INFINITY', float('inf'), 'expr')], derives=['Debug', 'TryFrom'], tags=['trivial']),
     ]
     full += triv
+    # less common spellings of a bound: every one is an ordinary Rust expression of the inner type
+    for t in ['i32', 'u64', 'i8']:
+        U = t.upper()
+        ex_sp = [('(5)', 5), ('lim_m!()', 6), (f'consts::LIM_{U}', 9), (f'crate::consts::LIM_{U}', 9), (f'<{t}>::MAX', int_max(t)), (f'{t}::MAX as {t}', int_max(t)),
+                 ('if true { 5 } else { 6 }', 5), ('match 1 { _ => 5 }', 5), (f'(5 as {t})', 5), (f'i8::MAX as {t}', 127), ('{ 5 }', 5), ('(5 + 1)', 6),
+                 ('0b1_01', 5), ('0o7', 7), (f'0x7f{t}', 127), ('1_0_0', 100)]
+        if int_signed(t):
+            ex_sp += [('-(5)', -5), ('(-5)', -5), ('- 5', -5), ('-(-5)', 5), ('-0', 0), ('-lim_m!()', -6), (f'-consts::LIM_{U}', -9), ('!0', -1), ('-0x10', -16)]
+        kinds = ['greater', 'greater_or_equal', 'less', 'less_or_equal']
+        for i, (text, value) in enumerate(ex_sp):
+            kind = kinds[i % 4]
+            arb = not ((kind == 'greater' and value == int_max(t)) or (kind == 'less' and value == int_min(t)))
+            form = 'lit' if re.fullmatch(r'-?\s?[0-9_]+', text) else 'expr'
+            full.append(decl('int', t, validators=[V(kind, text, value, form)], derives=['Debug', 'TryFrom'] + (['Arbitrary'] if arb else []), tags=['spelling', 'exotic']))
+    for t in FLOAT_TYPES:
+        U = t.upper()
+        rr = (lambda x: f32_round(x)) if t == 'f32' else (lambda x: x)
+        eps = 1.1920928955078125e-07 if t == 'f32' else 2.220446049250313e-16
+        minpos = 1.1754943508222875e-38 if t == 'f32' else 2.2250738585072014e-308
+        fmax = 3.4028234663852886e38 if t == 'f32' else 1.7976931348623157e308
+        pi = rr(3.141592653589793)
+        ex_sp = [('1.', 1.0), ('1e-3', rr(1e-3)), ('1E3', 1000.0), ('1_0.5', 10.5), (f'{t}::EPSILON', eps), (f'{t}::MIN_POSITIVE', minpos),
+                 (f'core::{t}::consts::PI', pi), (f'-{t}::MAX', -fmax), ('(1.0 / 4.0)', 0.25), ('-(2.5)', -2.5), ('(-2.5)', -2.5), ('- 2.5', -2.5),
+                 (f'consts::FLIM_{U}', 9.5), ('flim_m!()', 6.5), (f'-consts::FLIM_{U}', -9.5), ('if true { 1.5 } else { 2.5 }', 1.5), (f'(2 as {t})', 2.0),
+                 ('-0', -0.0 if False else 0.0), ('1e0', 1.0), (f'{t}::MIN', -fmax), ('5', 5.0), ('-5', -5.0)]
+        kinds = ['greater', 'greater_or_equal', 'less', 'less_or_equal']
+        for i, (text, value) in enumerate(ex_sp):
+            form = 'lit' if re.fullmatch(r'-?\s?[0-9_]+(\.[0-9_]*)?([eE][-+]?[0-9]+)?', text) else 'expr'
+            full.append(decl('float', t, validators=[V(kinds[i % 4], text, value, form)], derives=['Debug', 'TryFrom'], tags=['spelling', 'exotic']))
+
     # valid sets of exactly one value, spelled through expressions (the macro cannot compare those bounds with each other)
     for t in ['u8', 'i8', 'i32', 'i128']:
         U = t.upper()
